@@ -23,21 +23,15 @@ Theorem C12_known_operators : forall n : bytes, op_lookup n = None <-> class_of 
 Proof. exact known_iff. Qed.
 Print Assumptions C12_known_operators.
 
-(* every non-empty legal walk of the diagram — operators in a permitted order, operands of the text-showing
+(* every legal walk of the diagram (the empty stream included) — operators in a permitted order, operands of the text-showing
    operators as in Table 109, any operands elsewhere, unknown operators only inside BX … EX (nested) — is
    accepted and yields exactly the string operands of Tj, quote, double-quote, TJ in order, byte for byte, with a Space for
    BT, ET, Td, TD, T* and before the string of the quote operators *)
-Theorem C12_extract_except_known : forall items : list item,
-  items <> [] -> wf_items items = true -> legal_walk items = true ->
+Theorem C12_extract : forall items : list item,
+  wf_items items = true -> legal_walk items = true ->
   Content.extract (flatten items) = Ok (tokens_spec items).
 Proof. exact extract_legal. Qed.
-Print Assumptions C12_extract_except_known.
-
-(* known finding C12-empty: the hypothesis [items <> []] cannot be dropped *)
-Theorem C12_extract_refuted :
-  exists items, wf_items items = true /\ legal_walk items = true /\ Content.extract (flatten items) <> Ok (tokens_spec items).
-Proof. exact extract_refuted_empty. Qed.
-Print Assumptions C12_extract_refuted.
+Print Assumptions C12_extract.
 
 (* every stream that, after a legal prefix, uses an operator the current level does not permit, an unknown
    operator outside BX … EX, or a text-showing operator with the wrong number or kind of operands is rejected *)
@@ -49,12 +43,12 @@ Print Assumptions C12_reject.
 (* the same two statements for the observation TextExtractor::new(ctxt, id).parse(bytes): whenever the lexer
    (CSObjP, modelled by cs_lex on top of Model/Prim.v and Model/Obj.v) reads the bytes as the tokens of a stream
    of operator applications.  [rel] = release profile, [maxd] = the context's recursion bound. *)
-Theorem C12_extract_bytes_except_known : forall (rel : bool) (maxd : nat) (s : bytes) (items : list item),
+Theorem C12_extract_bytes : forall (rel : bool) (maxd : nat) (s : bytes) (items : list item),
   cs_lex rel maxd s = Ok (flatten items) ->
-  items <> [] -> wf_items items = true -> legal_walk items = true ->
+  wf_items items = true -> legal_walk items = true ->
   extract_bytes rel maxd s = Ok (tokens_spec items).
 Proof. exact extract_bytes_legal. Qed.
-Print Assumptions C12_extract_bytes_except_known.
+Print Assumptions C12_extract_bytes.
 
 Theorem C12_reject_bytes : forall (rel : bool) (maxd : nat) (s : bytes) (items : list item),
   cs_lex rel maxd s = Ok (flatten items) ->
